@@ -1,0 +1,18 @@
+// SPDX-FileCopyrightText: 2026 The Pion community <https://pion.ly>
+// SPDX-License-Identifier: MIT
+
+//go:build verif
+
+package cc
+
+// VerifC11Stream reports whether the bandwidth estimator still holds state for
+// ssrc (lifecycle check C11); estimators without the probe hold none.
+func (c *Interceptor) VerifC11Stream(ssrc uint32) (exists, fresh bool) {
+	if p, ok := c.estimator.(interface {
+		VerifC11Stream(ssrc uint32) (bool, bool)
+	}); ok {
+		return p.VerifC11Stream(ssrc)
+	}
+
+	return false, true
+}
